@@ -64,9 +64,15 @@ class Textgrid:
         if not isinstance(other, Textgrid):
             return False
 
+        def sameTimestamp(a, b):
+            # A textgrid that has no tiers yet may have no timestamps (None)
+            if a is None or b is None:
+                return a is None and b is None
+            return my_math.isclose(a, b)
+
         isEqual = True
-        isEqual &= my_math.isclose(self.minTimestamp, other.minTimestamp)
-        isEqual &= my_math.isclose(self.maxTimestamp, other.maxTimestamp)
+        isEqual &= sameTimestamp(self.minTimestamp, other.minTimestamp)
+        isEqual &= sameTimestamp(self.maxTimestamp, other.maxTimestamp)
 
         isEqual &= self.tierNames == other.tierNames
         if isEqual:
